@@ -3,6 +3,7 @@ package core
 import (
 	"fmt"
 	"go/ast"
+	"go/constant"
 	"go/token"
 	"go/types"
 	"strings"
@@ -511,6 +512,15 @@ func (n *normalizer) stmt(s ast.Stmt) {
 		}
 		n.emit(";")
 	case *ast.IfStmt:
+		// a constant condition (`if debug { … }` with a false package constant): only the live branch exists
+		if tv, ok := n.info.Types[x.Cond]; ok && tv.Value != nil && tv.Value.Kind() == constant.Bool && x.Init == nil {
+			if constant.BoolVal(tv.Value) {
+				n.block(x.Body)
+			} else if x.Else != nil {
+				n.stmt(x.Else)
+			}
+			return
+		}
 		n.emit("if")
 		if x.Init != nil {
 			n.stmt(x.Init)
